@@ -21,7 +21,7 @@ PROP = 'C02'
 
 UINTS = [0, 1, 23, 24, 255, 256, 65535, 65536, 2 ** 32 - 1, 2 ** 32, 2 ** 64 - 1]
 DEFINED_FLAGS = [0x000001, 0x000002, 0x000004, 0x000020, 0x000040, 0x004000, 0x010000, 0x020000, 0x040000]
-EIDS = ['dtn:none', 'dtn://n/', 'dtn://node-name/svc', 'dtn://n/a/b?c', 'dtn:~group', 'ipn:1.2', 'ipn:0.0',
+EIDS = ['dtn:none', 'dtn://n/', 'dtn://node-name/svc', 'dtn://n/a/b?c', 'dtn://NodeA/Svc#Frag', 'dtn:~group', 'ipn:1.2', 'ipn:0.0', 'ipn:977000.3.7',
         'ipn:23.24', 'ipn:255.256', 'ipn:65535.65536', 'ipn:4294967295.4294967296', 'ipn:18446744073709551615.1']
 DATAS = [b'', b'\x00', b'x' * 23, b'y' * 24, b'z' * 255, b'w' * 256]
 
@@ -428,7 +428,22 @@ def gen_odd_btsd():
                 yield ('type-%d btsd=%s k%d' % (typ, data.hex(), kind), b)
 
 
+def gen_other_admin_records():
+    '''Administrative records of types other than the status report (no class bound to them):
+    [type, content] with every kind of CBOR content, the "empty" values included.'''
+    contents = [0, 1, False, True, None, {}, {1: 2}, [], [1, [2]], '', 'text', b'', b'\x00\x01', 2 ** 32, -1]
+    for rtype in (0, 2, 3, 23, 24, 65536):
+        for content in contents:
+            for kind in (0, 2):
+                for extra in (0, B.FLAG_NO_FRAGMENT | B.FLAG_REQ_DELETION):
+                    b = base_bundle(kind)
+                    b['primary']['flags'] = B.FLAG_ADMIN | extra
+                    b['blocks'][-1]['data'] = C.dumps([rtype, content])
+                    yield ('admin record type %d content %r k%d flags+%#x' % (rtype, content, kind, extra), b)
+
+
 GENERATORS = {
+    'other-admin-records': gen_other_admin_records,
     'odd-btsd': gen_odd_btsd,
     'many-blocks': gen_many_blocks,
     'field-sweeps': gen_field_sweeps,
@@ -478,7 +493,7 @@ def run_chunk(params, known):
 def scenarios(tier):
     out = []
     plan = [('field-sweeps', 4), ('flag-subsets', 2), ('product', 8), ('status-reports', 4),
-            ('block-lists', 8), ('many-blocks', 2 if tier == 'quick' else 8), ('odd-btsd', 1)]
+            ('block-lists', 8), ('many-blocks', 2 if tier == 'quick' else 8), ('odd-btsd', 1), ('other-admin-records', 1)]
     for (space, parts) in plan:
         for part in range(parts):
             name = '%s-%d/%d' % (space, part + 1, parts)
@@ -495,6 +510,7 @@ def scenarios(tier):
 ASSUMPTIONS = [
     'unsigned fields take the values at every CBOR head-width boundary (0,1,23,24,255,256,65535,65536,2^32-1,2^32,2^64-1); values strictly in between are not enumerated',
     'extension-block lists of up to three blocks from a menu of nine (previous node, age, hop count, BIB, BCB, unknown types)',
+    'administrative records of six types without a bound class x 15 contents (empty / falsy values included) x extra bundle flags',
     'known-type extension blocks (previous node, age, hop count, BIB, BCB) carrying 27 kinds of foreign block-type-specific data (other CBOR shapes, truncated CBOR, not CBOR)',
     'bundles with n extension blocks for every n up to 40 and around 24 / 256 top-level items (thorough: every n up to 300)',
     'DTN time input forms (datetime, ISO text): every millisecond of windows after the epoch, around 2^k seconds for k = 10..35 and at three later dates (2000 ms wide, thorough 20000 ms), against integer arithmetic',
